@@ -904,9 +904,16 @@ def backslice(fn, start, mode="prov", extra_transparent=None, through_clone=True
                     push_op(Operand(payload.j["v"]))
         if mode == "dep":
             # mutation through a borrow handed to a call: L depends on the other arguments of that call
-            for (tl, m, b) in refuses.get(l, []):
-                if m != "mut":
-                    continue
+            muts, stack_r, seen_r = [], [l], set()
+            while stack_r:
+                x = stack_r.pop()
+                for (tl, m, b) in refuses.get(x, []):
+                    if m != "mut" or tl in seen_r:
+                        continue
+                    seen_r.add(tl)
+                    muts.append((tl, m, b))
+                    stack_r.append(tl)   # reborrows: `_b = &mut (*_a)`
+            for (tl, m, b) in muts:
                 for (cb, ai, t) in arguses.get(tl, []):
                     if fn.blocks[cb].cleanup:
                         continue
